@@ -70,6 +70,14 @@ def drive(E):
 '''
 
 TMPL = {"name": "calltree", "src": SRC, "funcs": ["f"], "twin_funcs": ["f", "g", "h"], "gen": False}
+# "late" variant: an activation binds its context variable for the first time only after its first nested call has
+# returned, so nested matches fire while an outer captured variable is still unbound (it must be omitted from those events
+# and present in the later ones)
+SRC_LATE = SRC
+for _v in "abc":
+    SRC_LATE = SRC_LATE.replace(f"    {_v} = E.val()\n    x = E.val()\n    while True:", "    x = E.val()\n    while True:")
+assert SRC_LATE.count("E.val()") == SRC.count("E.val()") - 3
+TMPL_LATE = {"name": "calltree_late", "src": SRC_LATE, "funcs": ["f"], "twin_funcs": ["f", "g", "h"], "gen": False}
 CTXVAR = {"f": "a", "g": "b", "h": "c"}
 
 
@@ -330,10 +338,11 @@ def expected_total_focused(rec, spec):
     return out
 
 
-def load_pair():
+def load_pair(late=False):
     from pv.corpus.base import Recorder, load
 
+    tmpl = TMPL_LATE if late else TMPL
     rec = Recorder()
-    ns_t, _ = load(TMPL, twin=True, recorder=rec)
-    ns_i, _ = load(TMPL)
+    ns_t, _ = load(tmpl, twin=True, recorder=rec)
+    ns_i, _ = load(tmpl)
     return rec, ns_t, ns_i
